@@ -39,7 +39,7 @@ Fifth round: C03.3 a requested state is stored on every path of Node.set_state a
 Sixth round: C03.3 every server that came up goes through reload_server and adjust_server_state (shared with C08.5).
 Seventh round: C03.3 the partition of a server is the recorded one (the default only when the record names none; shared with C11.1), and a server whose record was read again keeps its old object only when the fresh one is the same under the same parent (shared with C01.5).
 Eighth round: C03.4 the allocation object a record configures, and its assignments point to, is resolved from the partition the record names at every load (root allocation of self.cell.partitions[..] and get_sub_alloc steps only - no object remembered by name).
-Ninth round: C03.6 the reserved key of the trait table is not a trait - a name from the input is looked up or registered in the table only when it is not the reserved name (F22: a server listing a trait literally called 'invalid' carried the unknown-trait bit; repaired in /repo).
+Ninth round: C03.6 the reserved key of the trait table is not a trait - a name from the input is looked up or registered in the table only when it is not the reserved name (F22: a server listing a trait literally called 'invalid' carried the unknown-trait bit; repaired in /repo). Also C03.1 a server is put up for reboot only once its valid_until has passed on the clock (no look-ahead); C03.4 assignments are filed and looked up under the same key (shared with C06.7).
 Does NOT decide that a granted expiry never exceeds the reboot time over
 clock advances.
 """
